@@ -158,3 +158,30 @@ var partialPairs = func() [][2][]byte {
 
 	return pairs
 }()
+
+var neighbourCache = map[string][]byte{}
+
+// shardNeighbour returns the j-th of some other keys that live in the same one of the library's 128
+// shards as key (shard = xxhash64 % 128 in the current code; otherwise they are merely other keys).
+func shardNeighbour(key []byte, j int) []byte {
+	id := fmt.Sprintf("%x/%d", key, j)
+	if nb, ok := neighbourCache[id]; ok {
+		return nb
+	}
+
+	want := xxhash.Sum64(key) % nShards
+	found := 0
+
+	for i := 0; ; i++ {
+		nb := []byte(fmt.Sprintf("neighbour-%d", i))
+		if xxhash.Sum64(nb)%nShards == want && !bytes.Equal(nb, key) {
+			if found == j {
+				neighbourCache[id] = nb
+
+				return nb
+			}
+
+			found++
+		}
+	}
+}
